@@ -19,6 +19,7 @@ EXPLANATION = (
     " (R1, extended) the verifier's mismatch edge ends in Err only and its match edge reaches Ok; (R6) check_alignment holds for every alignment the compiler can hand out and every offset that is a multiple of it."
     ' (R3/R4, field-sensitive) a bound established on a header or table field discharges only uses of that same field; a comparison of one field never discharges another.'
     ' (R7) record codecs agree field by field: each writer (header, const entry, symbol, dictionary, type entry, every instruction variant) writes its fields in the order and width the reader that rebuilds the record reads them, and the compile-side and load-side writers of one record agree.'
+    " (R8) the compiler's align_up(len, align) is the smallest multiple of align >= len over the finite table of alignments and lengths, and the offset recorded in the constant entry is the padded offset."
 )
 
 READ_SRC = re.compile(r"ReadBytesExt::read_u(8|16|32|64|128)$|ReadBytesExt::read_i(8|16|32|64)$|::from_le_bytes$|::from_le$|ReadBytesExt::read_f(32|64)$")
